@@ -36,6 +36,41 @@ def _time_exprs(fi):
     return out
 
 
+def check_lru_pairs(model, rep, rule):
+    """The dict and the recency ring of LRUCache change together (shared with C16: a resolver with an LRU cache raises KeyError / drops fresh answers otherwise)."""
+    lru = model.cls("dns.resolver.LRUCache")
+    # dict/ring pairing in put/get/flush
+    n_pair = 0
+    for qn in sorted(g.qualname for g in model.all_functions() if g.cls is lru and g.name != "__init__"):
+        f2 = model.func(qn)
+        for blk in _blocks(f2.node):
+            dels = [(st, src(st.targets[0].slice)) for st in blk if isinstance(st, ast.Delete) and isinstance(st.targets[0], ast.Subscript) and src(st.targets[0].value) == "self.data"]
+            unl = [src(st.value.func.value) for st in blk if isinstance(st, ast.Expr) and isinstance(st.value, ast.Call) and isinstance(st.value.func, ast.Attribute) and st.value.func.attr == "unlink"]
+            for (st, k) in dels:
+                n_pair += 1
+                owner = k[:-4] if k.endswith(".key") else None
+                okk = owner is not None and (owner in unl or _unlinked_before(f2, st, owner))
+                rep.check(okk, rule, qn, where(f2, st), f"`del self.data[{k}]` paired with {owner}.unlink()",
+                          f"`del self.data[{k}]` without {owner}.unlink() – the ring keeps a node the dict forgot", stmt=stmt_key(st))
+            links = [st for st in blk if isinstance(st, ast.Expr) and isinstance(st.value, ast.Call) and isinstance(st.value.func, ast.Attribute) and st.value.func.attr == "link_after"]
+            for st in links:
+                n_pair += 1
+                who = src(st.value.func.value)
+                stored = any(isinstance(s, ast.Assign) and src(s.value) == who and any(isinstance(t, ast.Subscript) and src(t.value) == "self.data" for t in s.targets) for s in blk)
+                from_dict = any(isinstance(s, ast.Assign) and src(s.targets[0]) == who and src(s.value).startswith("self.data.get(") for s in ast.walk(f2.node) if isinstance(s, ast.Assign))
+                created_here = any(isinstance(s, ast.Assign) and src(s.targets[0]) == who and src(s.value).startswith("LRUCacheNode(") for s in blk)
+                okk = stored if created_here else from_dict
+                rep.check(okk, rule, qn, where(f2, st), f"`{who}.link_after(...)` paired with the dict entry",
+                          f"`{who}.link_after(...)` links a node the dict does not hold", stmt=stmt_key(st))
+        # any other way of dropping a dict entry (pop/popitem/clear without re-initialising the ring) leaves its node in the recency ring
+        for c in ast.walk(f2.node):
+            if isinstance(c, ast.Call) and isinstance(c.func, ast.Attribute) and src(c.func.value) == "self.data" and c.func.attr in ("pop", "popitem"):
+                n_pair += 1
+                rep.bad(rule, qn, where(f2, c), f"`{src(c)[:40]}` removes a dict entry without unlinking its node: the ring keeps a node the dict forgot, and when that node reaches the cold end "
+                        "put() evicts the wrong key (or raises KeyError)", stmt="dict-entry-dropped-without-unlink")
+    rep.floor(rule + "-pairs", n_pair, 5)
+
+
 def run(model, rep, tier):
     classes = [model.cls(c) for c in CACHE_CLASSES]
     # ------------------------------------------------------------------ R-17.1
@@ -302,36 +337,7 @@ def run(model, rep, tier):
             rep.check(mru_side == "self.sentinel.next" and victim[1] == "self.sentinel.prev", "R-17.4", fi.qualname, where(fi, ln.ast),
                       "victim is sentinel.prev, the end opposite to link_after(sentinel)",
                       f"victim is {victim[1]} but used nodes are linked at {mru_side}: not least-recently-used", stmt="victim-end")
-    # dict/ring pairing in put/get/flush
-    n_pair = 0
-    for qn in sorted(g.qualname for g in model.all_functions() if g.cls is lru and g.name != "__init__"):
-        f2 = model.func(qn)
-        for blk in _blocks(f2.node):
-            dels = [(st, src(st.targets[0].slice)) for st in blk if isinstance(st, ast.Delete) and isinstance(st.targets[0], ast.Subscript) and src(st.targets[0].value) == "self.data"]
-            unl = [src(st.value.func.value) for st in blk if isinstance(st, ast.Expr) and isinstance(st.value, ast.Call) and isinstance(st.value.func, ast.Attribute) and st.value.func.attr == "unlink"]
-            for (st, k) in dels:
-                n_pair += 1
-                owner = k[:-4] if k.endswith(".key") else None
-                okk = owner is not None and (owner in unl or _unlinked_before(f2, st, owner))
-                rep.check(okk, "R-17.4", qn, where(f2, st), f"`del self.data[{k}]` paired with {owner}.unlink()",
-                          f"`del self.data[{k}]` without {owner}.unlink() – the ring keeps a node the dict forgot", stmt=stmt_key(st))
-            links = [st for st in blk if isinstance(st, ast.Expr) and isinstance(st.value, ast.Call) and isinstance(st.value.func, ast.Attribute) and st.value.func.attr == "link_after"]
-            for st in links:
-                n_pair += 1
-                who = src(st.value.func.value)
-                stored = any(isinstance(s, ast.Assign) and src(s.value) == who and any(isinstance(t, ast.Subscript) and src(t.value) == "self.data" for t in s.targets) for s in blk)
-                from_dict = any(isinstance(s, ast.Assign) and src(s.targets[0]) == who and src(s.value).startswith("self.data.get(") for s in ast.walk(f2.node) if isinstance(s, ast.Assign))
-                created_here = any(isinstance(s, ast.Assign) and src(s.targets[0]) == who and src(s.value).startswith("LRUCacheNode(") for s in blk)
-                okk = stored if created_here else from_dict
-                rep.check(okk, "R-17.4", qn, where(f2, st), f"`{who}.link_after(...)` paired with the dict entry",
-                          f"`{who}.link_after(...)` links a node the dict does not hold", stmt=stmt_key(st))
-        # any other way of dropping a dict entry (pop/popitem/clear without re-initialising the ring) leaves its node in the recency ring
-        for c in ast.walk(f2.node):
-            if isinstance(c, ast.Call) and isinstance(c.func, ast.Attribute) and src(c.func.value) == "self.data" and c.func.attr in ("pop", "popitem"):
-                n_pair += 1
-                rep.bad("R-17.4", qn, where(f2, c), f"`{src(c)[:40]}` removes a dict entry without unlinking its node: the ring keeps a node the dict forgot, and when that node reaches the cold end "
-                        "put() evicts the wrong key (or raises KeyError)", stmt="dict-entry-dropped-without-unlink")
-    rep.floor("R-17.4-pairs", n_pair, 5)
+    check_lru_pairs(model, rep, "R-17.4")
     # get moves a hit to the front
     g = model.func("dns.resolver.LRUCache.get")
     cfgg = CFG(g.node, implicit_exc=False)
